@@ -1,7 +1,7 @@
 // Calls into the library under test for parsing (C08), formatting (C09) and
 // SCALE / byte views / serde (C10).
 
-use codec::{Decode, Encode, MaxEncodedLen};
+use codec::{Decode, DecodeAll, DecodeLimit, Encode, MaxEncodedLen};
 use lay::VF;
 use std::fmt;
 use std::str::FromStr;
@@ -57,7 +57,7 @@ fn sres(r: Result<String, fmt::Error>) -> Out {
 pub fn run_text<F>(st: usize, op: u16, sel: u16, a: u128, b: u128, s: &str, outs: &mut Outs)
 where
     F: VF + Encode + Decode + MaxEncodedLen + serde::Serialize + serde::de::DeserializeOwned,
-    F::Bits: Encode + Copy,
+    F::Bits: Encode + Decode + Copy,
     Wrapping<F>: serde::Serialize + serde::de::DeserializeOwned,
 {
     match op {
@@ -195,6 +195,28 @@ where
                     Ok(v) if v.len() == 2 && v[0].raw() == v[1].raw() => Out::O(Some(v[0].raw())),
                     _ => Out::O(None),
                 }
+            });
+            // the other decoding entry points of the codec, differentially against the underlying integer: the fixed
+            // value must decode exactly where the integer with the same bytes does (depth limits 0..2, bare / in a Vec)
+            step!(st, outs, 29, "decode_all(encode)", Out::O(F::decode_all(&mut &x.encode()[..]).ok().map(|v| v.raw())));
+            step!(st, outs, 30, "decode_limits_like_integer", {
+                let e = x.encode();
+                let ev = vec![x, x].encode();
+                let mut differ = 0u128;
+                for limit in 0..3u32 {
+                    let f = F::decode_with_depth_limit(limit, &mut &e[..]).ok().map(|v| v.raw());
+                    let i = <F::Bits>::decode_with_depth_limit(limit, &mut &e[..]).ok().map(F::bits_raw);
+                    let fa = F::decode_all_with_depth_limit(limit, &mut &e[..]).ok().map(|v| v.raw());
+                    let ia = <F::Bits>::decode_all_with_depth_limit(limit, &mut &e[..]).ok().map(F::bits_raw);
+                    let fv = <Vec<F>>::decode_with_depth_limit(limit, &mut &ev[..]).ok().map(|v| v.iter().map(|y| y.raw()).collect::<Vec<_>>());
+                    let iv = <Vec<F::Bits>>::decode_with_depth_limit(limit, &mut &ev[..]).ok().map(|v| v.iter().map(|y| F::bits_raw(*y)).collect::<Vec<_>>());
+                    // a Vec needs one level for itself; with no budget at all the codec's fast path for primitive
+                    // elements and its generic path differ already on the unchanged library, so that is not compared
+                    let vec_differs = limit >= 1 && fv != iv;
+                    differ |= ((f != i) as u128 | ((fa != ia) as u128) << 1 | (vec_differs as u128) << 2) << (4 * limit);
+                }
+                // bit 4*limit: bare value, +1: decode_all, +2: inside a Vec
+                Out::V(differ)
             });
         }
     }
